@@ -254,6 +254,16 @@ def c04e(tree, ob):
                     fvw = FuncView(tree, SESS, qual)
                     if any(isinstance(a, ast.Name) and src(fvw.value_at(a, stmt, depth=2)) == 'self._sessinit_peer.segment_mru' for a in val.args):
                         ok = True
+            # the size is a whole number of octets (it is handed to file.read()): no true division on the way, unless inside int()
+            if ok:
+                fvw2 = FuncView(tree, SESS, qual)
+                full = fvw2.value_at(val, stmt, depth=5)
+                inside_int = {id(x) for c in ast.walk(full) if isinstance(c, ast.Call) and call_name(c) in ('int', 'round', 'math.floor', 'math.ceil') for x in ast.walk(c)}
+                divs = [b for b in ast.walk(full) if isinstance(b, ast.BinOp) and isinstance(b.op, ast.Div) and id(b) not in inside_int]
+                if divs:
+                    ob.violate(SESS, qual, src(divs[0])[:60] + '  flows into the send segment size', 'the send segment size can become a float (a true division on the way, not inside int()): '
+                               'file.read(size) raises TypeError and the transfer stalls in mid-bundle', divs[0], sure=True)
+                    continue
             if ok:
                 ob.site(SESS, stmt, 'write is min(..., peer segment MRU) in ' + qual)
             else:
